@@ -1730,12 +1730,14 @@ def registration_form_configs() -> List[Dict[str, Any]]:
 def overlap_configs(tier: str) -> List[Dict[str, Any]]:
     out = []
     # two calls: every ordered pair of messages with distinct ids (two notifications allowed) x targets x behaviours
-    pairs = [(a, b) for a in range(3) for b in range(3) if a != b or a == 2]
+    # (two requests may also carry the SAME id: different connections number their requests alike, and without sessions
+    # nothing else tells them apart - each must still get its own response)
+    pairs = [(a, b) for a in range(3) for b in range(3)]
     for (a, b) in pairs:
         for ta, tb, ba, bb in itertools.product(range(3), range(3), range(3), range(3)):
             out.append({"part": "overlap", "calls": [[a, ta, ba], [b, tb, bb]]})
     # three calls: the three messages in every order x behaviours; targets: all the same (quick) / every combination
-    for perm in itertools.permutations(range(3)):
+    for perm in list(itertools.permutations(range(3))) + [(0, 0, 2), (0, 2, 0), (1, 0, 1), (0, 0, 0)]:
         for bs in itertools.product(range(3), repeat=3):
             tgs = [(t, t, t) for t in range(3)] if tier == "quick" else list(itertools.product(range(3), repeat=3))
             for ts in tgs:
@@ -1912,7 +1914,7 @@ def run(tier: str, only=None) -> core.Result:
         "a register_method handler is any callable that returns an awaitable of the (response, session) pair when called with "
         "(message, session_id); plain synchronous functions are not in the alphabet",
         "two server objects built separately are independent: what is registered on one is not registered on another",
-        "overlap part: two in-flight requests never share an id; a handler released before it is started (i.e. one that does "
+        "overlap part: in-flight requests may share an id (each is judged by its own call's return value); a handler released before it is started (i.e. one that does "
         "not suspend) is the block part's subject; virtual loop schedules ready callbacks FIFO like stock asyncio",
     ]
     return res
